@@ -2,6 +2,7 @@ import Feox.Drv.Fsm
 import Feox.Drv.Fmt
 import Feox.Drv.Kv
 import Feox.Drv.Cache
+import Feox.Drv.Proto
 /-! `feoxdrv` — the Lean side of the correspondence check: reads one operation per line on
 stdin, runs the executable models, prints one answer line per input line.  Imports models
 only (no Mathlib, no proof files), so it links as a native executable. -/
@@ -11,6 +12,7 @@ structure Drv where
   fsm : Fsm.State := {}
   kv : Kv.State := {}
   cache : Cache.State := Cache.mkState 1 0 (fun _ => 0)
+  dur : Drv.ProtoDrv.St := {}
 
 def stepLine (d : Drv) (line : String) : IO (Drv × String) := do
   match (line.trimAscii.toString.splitOn " ").filter (· ≠ "") with
@@ -21,6 +23,14 @@ def stepLine (d : Drv) (line : String) : IO (Drv × String) := do
   | "kv" :: rest =>
     match Drv.KvDrv.handle d.kv rest with
     | some (s, out) => pure ({ d with kv := s }, out)
+    | none => pure (d, "bad-op")
+  | "dur" :: rest =>
+    match Drv.ProtoDrv.handleDur d.dur rest with
+    | some (s, out) => pure ({ d with dur := s }, out)
+    | none => pure (d, "bad-op")
+  | "shards" :: rest =>
+    match Drv.ProtoDrv.handleShards rest with
+    | some out => pure (d, out)
     | none => pure (d, "bad-op")
   | "cache" :: rest =>
     match Drv.CacheDrv.handle d.cache rest with
